@@ -14,6 +14,9 @@ import Rustic.Lemmas.SnapshotArchive
 import Rustic.Lemmas.TreeIter
 import Rustic.Lemmas.StreamerQueueSafety
 import Rustic.Lemmas.LockNet
+import Rustic.Lemmas.PruneOrder
+import Rustic.Lemmas.IndexerLock
+import Rustic.Lemmas.ActorListed
 namespace Rustic.Props.C13
 open Rustic.Tree Rustic.Parent Rustic.Archive
 
@@ -244,6 +247,85 @@ theorem kept_guard_stuck_state (keep : Bool) (cap : Nat) (s : LSt) (hidx : s.idx
 
 end AddRawLocks
 
+/-! ### Index files: arrival order at the prune planner, and the lock around add-and-save (seeded breakages C13-4 / C13-5) -/
+
+section IndexOrder
+open Rustic.Prune
+
+/-- (6) **The prune planner does not depend on the order in which the index files arrive.**  `stream_all::<IndexFile>` delivers
+them in the order the parallel reads finish.  For every list of index files (any number, any contents — also the state an
+interrupted prune leaves: a pack listed regularly in one file and as pack-to-delete in another) and EVERY permutation of it,
+`PrunePlan::new` (two passes) keeps the same packs with the same delete mark: pack `x` is in the plan unmarked iff some file lists
+it regularly, marked iff some file lists it as to-delete and none regularly; and no pack is in either plan twice. -/
+theorem prune_dedup_order_independent (kc : Consts) (files files' : List IndexFile) (h : files.Perm files') :
+    (∀ x m, InPlan (newPlan kc files) x m ↔ InPlan (newPlan kc files') x m) ∧
+    ((newPlan kc files).packs.map (·.id)).Nodup ∧ ((newPlan kc files').packs.map (·.id)).Nodup ∧
+    (∀ x, (InPlan (newPlan kc files) x false ↔ ListedReg files x) ∧
+          (InPlan (newPlan kc files) x true ↔ ListedDel files x ∧ ¬ ListedReg files x)) :=
+  ⟨fun x m => newPlan_perm kc h x m, (newPlan_spec kc files).1, (newPlan_spec kc files').1, fun x => newPlan_marks kc files x⟩
+
+/-- … and when all entries of a pack id list the same blobs (ids are content hashes), each plan pack has the same blobs in both. -/
+theorem prune_dedup_order_independent_blobs (kc : Consts) (files files' : List IndexFile) (h : files.Perm files')
+    (hc : Coherent files) (p : PPack) (hp : p ∈ (newPlan kc files).packs) :
+    ∃ p' ∈ (newPlan kc files').packs, p'.id = p.id ∧ p'.mark = p.mark ∧ p'.blobs = p.blobs :=
+  newPlan_perm_blobs kc h hc p hp
+
+open OrderWitness in
+/-- **Counter-model: de-duplication in ONE pass depends on the arrival order.**  With the regular entry arriving first the plan
+holds pack 7 once; with the to-delete entry first it holds it twice (marked and unmarked), and `check_existing_packs` — the first
+instance consumes the pack's entry of the existing-packs map — fails ("Pack does not exist"), whatever is decided for the two.
+The two-pass planner gives the same single unmarked pack for both orders. -/
+theorem single_pass_dedup_depends_on_order :
+    (singlePassPlan kc [fNew, fOld]).map (fun p => (p.id, p.mark)) = [(7, false)] ∧
+    (singlePassPlan kc [fOld, fNew]).map (fun p => (p.id, p.mark)) = [(7, true), (7, false)] ∧
+    (checkExisting true ((singlePassPlan kc [fOld, fNew]).map (fun p => { p with todo := if p.mark then .recover else .keep }))
+      [(7, (mkPack kc 0 false pk).size)] (Counts.ofKeys [])).isNone = true ∧
+    (checkExisting true ((singlePassPlan kc [fNew, fOld]).map (fun p => { p with todo := .keep }))
+      [(7, (mkPack kc 0 false pk).size)] (Counts.ofKeys [])).isSome = true ∧
+    (newPlan kc [fNew, fOld]).packs.map (fun p => (p.id, p.mark)) = [(7, false)] ∧
+    (newPlan kc [fOld, fNew]).packs.map (fun p => (p.id, p.mark)) = [(7, false)] := by decide
+
+end IndexOrder
+
+section IndexerLocking
+open Rustic.IndexerLock
+
+/-- (7) **Locked add-and-save loses nothing, for every interleaving.**  Any number of file writers (data packer, tree packer,
+repackers, copiers) share one `Indexer`; `Indexer::add_with` pushes the pack and — when the index file is due — saves it and
+resets, all under the write lock, however long the backend write takes.  For every schedule of `add` / `saved` events, every
+auto-save threshold and every age pattern: each pack added so far is in the indexer's current file or in a saved index file; hence
+after `finalize` every pack any writer added is listed by a stored index file. -/
+theorem locked_add_and_save_indexes_every_pack (maxCount : Nat) (evs : List IndexerLock.Ev) :
+    (∀ p ∈ (IndexerLock.run true maxCount {} evs).added,
+      p ∈ (IndexerLock.run true maxCount {} evs).file ∨ ∃ f ∈ (IndexerLock.run true maxCount {} evs).saved, p ∈ f) ∧
+    (∀ p ∈ (IndexerLock.run true maxCount {} evs).added, listed (finalize (IndexerLock.run true maxCount {} evs)) p = true) :=
+  ⟨(inv_run maxCount evs {} inv_init).kept, listed_finalize_of_inv (inv_run maxCount evs {} inv_init)⟩
+
+/-- **Counter-model: saving a copy outside the lock and resetting afterwards loses packs.**  Threshold 2 blobs, two writers:
+writer 0's add makes the file due (copy `[1]`), writer 1's add finds it due as well (copy `[1, 2]`), writer 0's save returns and it
+resets, writer 0 adds pack 3, writer 1's slower save returns and its reset wipes pack 3: all writers idle, nothing left to
+finalize, pack 3 is in no index file.  The same events under the locked protocol (writer 1 waits for the lock) list everything. -/
+theorem unlocked_save_can_lose_pack :
+    3 ∈ (IndexerLock.run false 2 {} losing).added ∧
+    listed (finalize (IndexerLock.run false 2 {} losing)) 3 = false ∧
+    (IndexerLock.run false 2 {} losing).pc 0 = .idle ∧ (IndexerLock.run false 2 {} losing).pc 1 = .idle ∧
+    (IndexerLock.run false 2 {} losing).file = [] ∧
+    finalize (IndexerLock.run false 2 {} losing) = [[1, 2], [1]] := by decide
+
+open Rustic.PackerActor Rustic.Repo in
+/-- (8) The same for the whole packer / file-writer / indexer actor model (`Model/PackerActor.lean`: n writers with queues and
+read-ahead, pack writes and index saves that may fail, the command's tail): whenever the command returns `Ok` — for every
+schedule, every threshold, every number of writers — every pack a packer handed to its file writer is a stored pack file AND is
+listed by a stored index file (auto-saved mid-run or written by `finalize`). -/
+theorem ok_command_lists_every_pack (maxCount n : Nat) (r : Repo) (evs : List PackerActor.Ev) (hl : listedWritten r = true)
+    (hr : (PackerActor.run maxCount (init r n) evs).result = some true) :
+    ∀ p ∈ (PackerActor.run maxCount (init r n) evs).sent,
+      p ∈ (PackerActor.run maxCount (init r n) evs).repo.packs ∧
+      ∃ i ∈ (PackerActor.run maxCount (init r n) evs).repo.indexes, idxPackOf p ∈ i.packs :=
+  listed_of_ok (okInv_run maxCount evs _ (okInv_init r n ((listedWritten_iff r).mp hl))) hr
+
+end IndexerLocking
+
 /-- (3) **No unindexed blob / pack.**  For every schedule of packer, file-writer and indexer events (any
 pack boundaries, any delay between writing a pack and indexing it, typed or untyped indexer set): after
 `finalize` the packs listed by the index are exactly the packs written to the backend. -/
@@ -401,6 +483,10 @@ example : (runActs ⟨none, 2, 2⟩ (wideDir 3) (init [0])
     finished (runActs ⟨none, 2, 2⟩ (wideDir 3) (init [0])
       [.send, .load, .put 0, .recv, .send, .send, .send, .load, .load, .put 1, .put 0, .recv, .load, .recv, .put 0,
        .recv]) = true := by decide
+
+/-- the losing events under the locked protocol: writer 1's add waits (not enabled while writer 0 saves); all added packs listed -/
+example : (IndexerLock.run true 2 {} IndexerLock.losing).added = [3, 1] ∧
+    IndexerLock.finalize (IndexerLock.run true 2 {} IndexerLock.losing) = [[3], [1]] := by decide
 
 /-- writing is delayed behind three flushes: everything is indexed at finalize -/
 example : (finalizeAll (runEvs { typed := true }
